@@ -137,8 +137,8 @@ int _GD_TokToNum(const char *restrict token, int standards, int pedantic,
   if (!errno && (*endptr == '\0' || *endptr == ';') && (ir != 0 || !re))
     rt = GD_INT64;
 
-  if (rt == GD_UNKNOWN && errno == ERANGE) {
-    /* could be a uint64 > 2**63 */
+  if (rt == GD_UNKNOWN && errno == ERANGE && ir > 0) {
+    /* could be a uint64 > 2**63 (strtoull would negate a negative number) */
     errno = 0;
     ur = gd_strtoull(token, &endptr, base);
     if (!errno && (*endptr == '\0' || *endptr == ';'))
@@ -170,7 +170,7 @@ int _GD_TokToNum(const char *restrict token, int standards, int pedantic,
     if (!errno && *endptr == '\0' && (ii != 0 || !im))
       it = (ii == 0) ? GD_NULL : GD_INT64;
 
-    if (it == GD_UNKNOWN && errno == ERANGE) {
+    if (it == GD_UNKNOWN && errno == ERANGE && ii > 0) {
       /* could be a uint64 > 2**63 */
       errno = 0;
       ui = gd_strtoull(token, &endptr, base);
